@@ -22,7 +22,7 @@ EVID = os.environ.get("VERIF_EVIDENCE_DIR", os.path.join(VERIF, "evidence"))    
 
 class Ob:
     def __init__(self, id, fn, timeout=60.0, per_path_timeout=None, desc="", group=None, expect_refuted=False,
-                 refutation_only=False, api_replay_decides=False):
+                 refutation_only=False, api_replay_decides=False, tolerate_errors=False):
         # generous floor: a timeout only matters when something is wrong, and a loaded machine must not turn a
         # passing obligation into INCONCLUSIVE (refutation-only obligations keep their short budget)
         timeout = timeout if refutation_only or expect_refuted else max(float(timeout), 300.0)
@@ -31,6 +31,8 @@ class Ob:
         self.group = group or id.split("[")[0]
         self.expect_refuted = expect_refuted          # vacuity twin: must come back REFUTED
         self.refutation_only = refutation_only        # INCONCLUSIVE is acceptable (bug hunting only)
+        self.tolerate_errors = tolerate_errors        # bug hunting over code the engine may not get through: an engine
+        #                                               ERROR counts like INCONCLUSIVE (recorded, no verdict)
         self.api_replay_decides = api_replay_decides  # a candidate that the public-API replay does not confirm is
         #                                               recorded as unconfirmed, not as a harness error
 
@@ -161,6 +163,8 @@ def main(argv):
         return 3
 
     obs = mod.obligations(tier)
+    if os.environ.get("VERIF_ONLY"):          # development aid (never used by a registered command): subset by regex
+        obs = [o for o in obs if re.search(os.environ["VERIF_ONLY"], o.id)]
     ids = [o.id for o in obs]
     assert len(set(ids)) == len(ids), "duplicate obligation ids"
     byid = {o.id: o for o in obs}
@@ -251,7 +255,8 @@ def main(argv):
             if not o.refutation_only:
                 inconclusive.append((o.id, r.get("reason")))
         elif v == "ERROR":
-            errors.append((o.id, r.get("error")))
+            if not (o.tolerate_errors and o.refutation_only):
+                errors.append((o.id, r.get("error")))
 
     # 3. evidence
     counted = [o for o in obs if not o.expect_refuted]
